@@ -1,6 +1,7 @@
 package main
 
 import (
+	"runtime/pprof"
 	"encoding/json"
 	"flag"
 	"fmt"
@@ -15,7 +16,7 @@ import (
 )
 
 func defaultConfig() Config {
-	return Config{MergeDefault: true, MergeMaxBlocks: 60, Policy: map[string]string{}, Unwind: 64, MaxDepth: 200,
+	return Config{MergeDefault: true, MergeMaxBlocks: 60, MergeMaxOutcomes: 6, Policy: map[string]string{}, Unwind: 64, MaxDepth: 200,
 		MaxSteps: 50_000_000, MaxPaths: 1 << 30, FeasMs: 5000, FinalMs: 60000, OKSampleMax: 6, StopOnViol: true, Known: map[string]bool{}, AllocBound: 64}
 }
 
@@ -89,7 +90,7 @@ func runHarness(prog *ssa.Program, fn *ssa.Function, cfg Config, prefix []int, s
 				}
 			}
 		}()
-		outs = e.callFn(st, fn, nil, nil, "harness")
+		outs = e.callFn(st, fn, nil, nil, nil)
 	}()
 	for _, o := range outs {
 		e.finishPath(o)
@@ -143,7 +144,7 @@ func (e *Exec) finishPath(o Outcome) {
 	default:
 		return
 	}
-	pr := PathResult{Label: o.pinfo.Kind + ": " + o.pinfo.Msg, Site: o.pinfo.Site, Covers: o.st.covers}
+	pr := PathResult{Label: o.pinfo.Kind + ": " + o.pinfo.Msg, Site: o.pinfo.where(), Covers: o.st.covers}
 	for _, cv := range o.st.covers {
 		if strings.HasPrefix(cv, "known:") {
 			pr.Known = strings.TrimPrefix(cv, "known:")
@@ -228,7 +229,13 @@ func cmdRun(args []string) {
 	all := fs.Bool("all", false, "do not stop at the first violation")
 	slow := fs.Int("slow", 0, "log queries slower than this many ms")
 	unwind := fs.Int("unwind", 64, "loop bound")
+	prof := fs.String("prof", "", "cpu profile")
 	fs.Parse(args)
+	if *prof != "" {
+		f, _ := os.Create(*prof)
+		pprof.StartCPUProfile(f)
+		defer pprof.StopCPUProfile()
+	}
 	overlay := map[string][]byte{}
 	if *ovd != "" {
 		files, _ := filepath.Glob(filepath.Join(*ovd, "*.go"))
@@ -276,6 +283,7 @@ func cmdRun(args []string) {
 			exit = 1
 		}
 	}
+	pprof.StopCPUProfile()
 	os.Exit(exit)
 }
 
